@@ -69,6 +69,12 @@ func ParseKern(src []byte) (Kern, int, error) {
 		return Kern{}, 0, fmt.Errorf("unsupported kern table version: %d", major)
 	}
 
+	// a subtable header takes at least 6 bytes: reject counts the table cannot hold
+	// before allocating
+	if L := len(src); uint32(L/6) < numTables {
+		return Kern{}, 0, fmt.Errorf("reading Kern: "+"EOF: expected length: %d, got %d", 6*uint64(numTables), L)
+	}
+
 	out := make([]KernSubtable, numTables)
 	var (
 		err    error
